@@ -355,3 +355,11 @@ Fixpoint walk (mai : Z) (t : tbl) (cur : option key) (fuel : nat) : option (list
 
 Definition walk_fuel (t : tbl) : nat := S (length (arr t) + length (keys t)).
 
+(* baselib.go ipairsaux, iterated from i: stops at the first nil (fuel bounds the number of calls) *)
+Fixpoint ipairs_from (mai : Z) (t : tbl) (i : Z) (fuel : nat) : list value :=
+  match fuel with
+  | O => []
+  | S f => let v := RawGetInt mai t i in
+           if is_nil v then [] else v :: ipairs_from mai t (i + 1) f
+  end.
+
